@@ -696,7 +696,8 @@ sys.exit(0)
 """
 
 
-def order_cycle(rep: report.Report, dim: str, named: List[str], core: List[Tuple], cs: List[Tuple]) -> None:
+def order_cycle(rep: report.Report, dim: str, named: List[str], core: List[Tuple], cs: List[Tuple],
+                pid: str = "C12") -> None:
     """The factors between named units of a dimension admit no consistent sizes (c04's query): then
     `<`, which compares through those factors, cannot agree with any physical values.  A triple
     whose factors multiply round to less than 1 gives three quantities with a < b < c < a."""
@@ -718,7 +719,7 @@ def order_cycle(rep: report.Report, dim: str, named: List[str], core: List[Tuple
     xb = xa * float(K[(a, b)][0]) * (1 + d)
     xc = xb * float(K[(b, c)][0]) * (1 + d)
     rep.ob("sat", name, ("order", dim))
-    rep.violation(f"C12:order:{dim}:" + "|".join(named),
+    rep.violation(f"{pid}:order:{dim}:" + "|".join(named),
                   f"{xa!r} {a} < {xb!r} {b} < {xc!r} {c} < {xa!r} {a}: the factors between them multiply round to "
                   f"{float(P)!r}, so the order agrees with no physical values (units concerned: {named})",
                   families.REPLAY_IMPORTS + ORDER_REPLAY.format(a=K[(a, b)][1], b=K[(b, c)][1], c=K[(c, a)][1],
